@@ -176,15 +176,33 @@ func (v *c03Viewer) walk(body ast.Node, rv string, fn string, seen map[string]bo
 				return false
 			}
 			// the claim itself handed on
+			passed := false
 			for _, a := range m.Args {
 				if isVar(a) {
+					passed = true
 					callee := short
 					if !v.scanned[callee] {
 						out = append(out, c03ViewEntry{fn, "whole->" + fun, []string{".whole " + leanStr(fun)}})
 					}
 				}
 			}
+			if passed {
+				ast.Inspect(m.Fun, visit)
+				for _, a := range m.Args {
+					if !isVar(a) {
+						ast.Inspect(a, visit)
+					}
+				}
+				return false
+			}
 			return true
+		case *ast.Ident:
+			// the claim variable used as a value in any other way (assigned to another variable, stored in a composite
+			// literal, returned, compared …): the translator does not follow it
+			if m.Name == rv {
+				out = append(out, c03ViewEntry{fn, "whole: used as a value", []string{".whole " + leanStr("claim variable used as a value in "+fn)}})
+			}
+			return false
 		case *ast.SelectorExpr:
 			if isVar(m.X) {
 				if v.ftype[m.Sel.Name] != "" {
@@ -272,6 +290,27 @@ func (c *ctxT) c03HandlerView(tn string, ftype map[string]string, classOnly map[
 				}
 			}
 		}
+		// a type assertion binding: `x, ok := e.(*types.T)` makes x a variable of the concrete type for the rest of the function
+		ast.Inspect(fd.Body, func(n ast.Node) bool {
+			as, ok := n.(*ast.AssignStmt)
+			if !ok || len(as.Rhs) != 1 || len(as.Lhs) < 1 {
+				return true
+			}
+			ta, ok := as.Rhs[0].(*ast.TypeAssertExpr)
+			if !ok || ta.Type == nil || !isT(ta.Type) {
+				return true
+			}
+			if id, ok := as.Lhs[0].(*ast.Ident); ok && id.Name != "_" {
+				for _, e := range v.walk(fd.Body, id.Name, fd.Name.Name, map[string]bool{}) {
+					// the binding occurrence itself is not a use
+					if e.Expr == "whole: used as a value" {
+						continue
+					}
+					out = append(out, e)
+				}
+			}
+			return true
+		})
 		ast.Inspect(fd.Body, func(n ast.Node) bool {
 			ts, ok := n.(*ast.TypeSwitchStmt)
 			if !ok {
